@@ -2,6 +2,7 @@
 package verifharness
 
 import (
+	"os/exec"
 	"encoding/json"
 	"fmt"
 	"hash/fnv"
@@ -297,6 +298,9 @@ type ViolationOut struct {
 	Seed     uint64 `json:"seed"`
 	Replay   string `json:"replay"`
 	Reproduced bool `json:"reproduced"`
+	// FreshFailed: the replay file did not reproduce in a fresh process (the run depended on state that earlier runs of
+	// this worker process left behind in the library, e.g. a package-level cache); the worker went on searching
+	FreshFailed bool `json:"fresh_failed,omitempty"`
 }
 
 func envInt(name string, def int64) int64 {
@@ -322,6 +326,8 @@ type worker struct {
 	replays  string
 	stop     bool
 	detEvery int64
+	// unconfirmed counts violations whose replay file did not reproduce in a fresh process
+	unconfirmed int
 }
 
 type knownFinding struct {
@@ -391,8 +397,9 @@ func (w *worker) one(sc *scen.Scenario, seed uint64, prefix []uint32) *Exec {
 			w.out.Probes["known-finding:"+v.Rule+":"+v.Sig]++
 			continue
 		}
-		w.report(sc, seed, ex, v, fair, len(prefix))
-		w.stop = true
+		if w.report(sc, seed, ex, v, fair, len(prefix)) || w.unconfirmed >= 4 {
+			w.stop = true
+		}
 		break
 	}
 	return ex
@@ -457,7 +464,17 @@ func (w *worker) account(sc *scen.Scenario, seed uint64, ex *Exec) {
 	}
 }
 
-func (w *worker) report(sc *scen.Scenario, seed uint64, ex *Exec, v scen.Violation, fair bool, fixedGen int) {
+// freshReplay runs the replay file in a fresh process of this binary and tells whether the violation reproduced there.
+func freshReplay(prop, path string) bool {
+	cmd := exec.Command(os.Args[0], "-test.run", "^TestSim$", "-test.timeout", "0")
+	cmd.Env = append(os.Environ(), "VERIF_PROP="+prop, "VERIF_REPLAY="+path, "VERIF_REPLAY_QUIET=1", "GOMAXPROCS=2")
+	out, _ := cmd.CombinedOutput()
+	return strings.Contains(string(out), "REPLAY-REPRODUCED")
+}
+
+// report minimises, writes the replay file and confirms it in a fresh process; it returns false when the violation could
+// not be confirmed there (the worker then goes on searching).
+func (w *worker) report(sc *scen.Scenario, seed uint64, ex *Exec, v scen.Violation, fair bool, fixedGen int) bool {
 	gen, sched := ex.Gen, ex.Sched
 	g0, s0 := len(gen), len(sched)
 	mg, ms, tries := shrink(w.t, sc, gen, sched, fair, v.Rule, v.Sig, w.tier, fixedGen)
@@ -491,7 +508,20 @@ func (w *worker) report(sc *scen.Scenario, seed uint64, ex *Exec, v scen.Violati
 		w.out.HarnessErr = "cannot write replay file: " + err.Error()
 	}
 	vo.Replay = path
+	if vo.Reproduced && !freshReplay(sc.Prop, path) {
+		// perhaps the minimisation (done in this process, with whatever state earlier runs left in the library) cut
+		// away what a fresh process needs: try the unminimised tapes
+		rp.Gen, rp.Sched = gen, sched
+		rp.Shrunk = map[string]int{"gen_before": g0, "gen_after": g0, "sched_before": s0, "sched_after": s0, "executions": tries}
+		b, _ = json.MarshalIndent(rp, "", " ")
+		os.WriteFile(path, b, 0o644)
+		if !freshReplay(sc.Prop, path) {
+			vo.FreshFailed = true
+			w.unconfirmed++
+		}
+	}
 	w.out.Violations = append(w.out.Violations, vo)
+	return vo.Reproduced && !vo.FreshFailed
 }
 
 func short(s string, n int) string {
